@@ -3,7 +3,8 @@
    far below 2^64 (16 EiB). *)
 From Coq Require Import ZArith.
 From MC Require Import Model.Base Model.Generated Model.Store Model.Memc Model.Codec Model.Handler
-  Model.PolConc Spec.Exec Proofs.StoreLemmas Proofs.SetLemmas Proofs.Effects Proofs.PPolicy Proofs.PPolConc.
+  Model.PolConc Spec.Exec Proofs.StoreLemmas Proofs.SetLemmas Proofs.Effects Proofs.PPolicy Proofs.PPolConc
+  Proofs.PPolSeq.
 
 (* every request keeps: keys unique, counter = bytes actually stored *)
 Theorem C15_request_keeps_accounting : forall req s,
@@ -52,6 +53,32 @@ Theorem C15_accounting_exact_concurrent :
   (totz s <= p_usage s)%Z /\ (Forall idle ts -> p_usage s = totz s).
 Proof. exact accounting_exact_conc. Qed.
 Print Assumptions C15_accounting_exact_concurrent.
+
+(* the two models of random_policy.rs describe the same code: run without
+   interleaving, the concurrent programs are the sequential functions of
+   Model/Store.v (for [set]: while the usage is within the limit, where neither
+   model's oracle has anything to say) *)
+Theorem C15_pget_prog_is_get : forall L k s o,
+  acct s -> s_limit s = Some L ->
+  grun (pact (s_now s)) (pget_prog (s_now s) k) (pshared_of s o) =
+  (pshared_of (fst (get k s)) o, PGetR (snd (get k s))).
+Proof. exact pget_seq. Qed.
+Print Assumptions C15_pget_prog_is_get.
+
+Theorem C15_pdel_prog_is_delete : forall L now k c s o,
+  acct s -> s_limit s = Some L ->
+  grun (pact now) (pdel_prog k c) (pshared_of s o) =
+  (pshared_of (fst (delete k c s)) o, PDelR (snd (delete k c s))).
+Proof. exact pdel_seq. Qed.
+Print Assumptions C15_pdel_prog_is_delete.
+
+Theorem C15_pset_prog_is_set : forall L limit k r s o,
+  acct s -> s_limit s = Some L -> limit = Z.of_N L -> s_usage s <= L ->
+  total (s_mem s) + rec_len r < two64 ->
+  grun (pact (s_now s)) (pset_prog (s_now s) limit k r) (pshared_of s o) =
+  (pshared_of (fst (set k r s)) o, PSetR (snd (set k r s))).
+Proof. exact pset_seq. Qed.
+Print Assumptions C15_pset_prog_is_set.
 
 (* non-vacuity: a client collecting an expired record while another overwrites it
    and a third flushes; everything returns to 'usage = stored bytes' *)
